@@ -778,7 +778,7 @@ func OpenWith(path string, vLogs []appendable.Appendable, txLog, cLog appendable
 
 func (s *ImmuStore) syncer() {
 	if simhook.Enabled {
-		simhook.GoStart("syncer")
+		simhook.GoStart("syncer:" + filepath.Base(s.path))
 		defer simhook.GoEnd()
 	}
 	for {
